@@ -21,6 +21,8 @@ type hStep struct {
 	Events []string // converted events of this step
 	Writes int      // Write calls of the outermost writer during this step
 	Fresh  Obs      // render: the same segment replayed on a new context
+	Fail   int      // render: the outermost writer refuses its Fail-th write (0 = never) ...
+	Short  int      // ... after taking Short bytes of it
 
 	retained []byte // the slice Render returned, kept without copying
 	Altered  string // non-empty: what the retained slice had become by the end of the history
@@ -39,14 +41,26 @@ type history struct {
 
 // logWriter marks every Write call of the outermost writer in the harness log.
 type logWriter struct {
-	buf bytes.Buffer
-	n   int
+	buf         bytes.Buffer
+	n           int
+	fail, short int // refuse the fail-th write after short bytes (0 = accept everything)
 }
 
 func (l *logWriter) Write(p []byte) (int, error) {
 	harnessLog.add("w")
 	l.n++
-	return l.buf.Write(p)
+	if l.fail == 0 || l.n < l.fail {
+		return l.buf.Write(p)
+	}
+	if l.n == l.fail {
+		k := l.short
+		if k > len(p) {
+			k = len(p)
+		}
+		l.buf.Write(p[:k])
+		return k, errInjected
+	}
+	return 0, errInjected
 }
 
 func convertEvents(raw []string) []string {
@@ -72,13 +86,13 @@ func convertEvents(raw []string) []string {
 }
 
 func renderOn(ctx *dyntpl.Ctx, key string, data *DataEnv) (Obs, []string) {
-	o, e, _ := renderOnW(ctx, key, data)
+	o, e, _ := renderOnW(ctx, key, data, 0, 0)
 	return o, e
 }
 
-func renderOnW(ctx *dyntpl.Ctx, key string, data *DataEnv) (Obs, []string, int) {
+func renderOnW(ctx *dyntpl.Ctx, key string, data *DataEnv, fail, short int) (Obs, []string, int) {
 	harnessLog.take()
-	lw := &logWriter{}
+	lw := &logWriter{fail: fail, short: short}
 	obs := guarded(5*time.Second, func() ([]byte, error) {
 		data.Apply(ctx)
 		err := dyntpl.Write(lw, key, ctx)
@@ -117,7 +131,12 @@ func genHistoryCase(id int, rng *RNG, prof *Profile, steps int) *history {
 			h.Steps = append(h.Steps, &hStep{Kind: []string{"reset", "release"}[rng.Intn(2)]})
 		}
 		ic := pool[rng.Intn(len(pool))]
-		h.Steps = append(h.Steps, &hStep{Kind: "render", IC: ic, Key: ic.vc.Meta["key"].(string)})
+		st := &hStep{Kind: "render", IC: ic, Key: ic.vc.Meta["key"].(string)}
+		if rng.Chance(18) {
+			// the writer refuses one of the first writes of this render; the context is used further
+			st.Fail, st.Short = 1+rng.Intn(6), rng.Intn(3)
+		}
+		h.Steps = append(h.Steps, st)
 	}
 	h.Steps = append(h.Steps, &hStep{Kind: "reset"})
 	return h
@@ -132,7 +151,7 @@ func (h *history) run() {
 		fresh := dyntpl.NewCtx()
 		for j := segStart; j <= upto; j++ {
 			if h.Steps[j].Kind == "render" {
-				h.Steps[j].Fresh, _ = renderOn(fresh, h.Steps[j].Key, h.Steps[j].IC.vc.Data)
+				h.Steps[j].Fresh, _, _ = renderOnW(fresh, h.Steps[j].Key, h.Steps[j].IC.vc.Data, h.Steps[j].Fail, h.Steps[j].Short)
 			}
 		}
 		harnessLog.take()
@@ -143,7 +162,7 @@ func (h *history) run() {
 	for i, s := range h.Steps {
 		switch s.Kind {
 		case "render":
-			if h.UseRender && i%2 == 1 {
+			if h.UseRender && i%2 == 1 && s.Fail == 0 {
 				harnessLog.take()
 				key, data := s.Key, s.IC.vc.Data
 				var ret []byte
@@ -166,7 +185,7 @@ func (h *history) run() {
 				s.retained = ret
 				s.Events = convertEvents(harnessLog.take())
 			} else {
-				s.Obs, s.Events, s.Writes = renderOnW(ctx, s.Key, s.IC.vc.Data)
+				s.Obs, s.Events, s.Writes = renderOnW(ctx, s.Key, s.IC.vc.Data, s.Fail, s.Short)
 			}
 			last = i
 		case "reset", "release":
@@ -211,7 +230,11 @@ func (h *history) gallina(id int) string {
 		switch s.Kind {
 		case "render":
 			steps = append(steps, s.IC.vc.Data.HSteps()...)
-			steps = append(steps, fmt.Sprintf("HRender %s %s %d%%N %s", gNodes(s.IC.vc.Tree), gBytes(s.Obs.Out), errCode(s.Obs), gList(s.Events)))
+			if s.Fail > 0 {
+				steps = append(steps, fmt.Sprintf("HRenderF %s %s %s %s %d%%N %s", gNodes(s.IC.vc.Tree), gNat(s.Fail), gNat(s.Short), gBytes(s.Obs.Out), errCode(s.Obs), gList(s.Events)))
+			} else {
+				steps = append(steps, fmt.Sprintf("HRender %s %s %d%%N %s", gNodes(s.IC.vc.Tree), gBytes(s.Obs.Out), errCode(s.Obs), gList(s.Events)))
+			}
 		default:
 			steps = append(steps, "HReset "+gList(s.Events))
 		}
